@@ -80,6 +80,9 @@ def run (op grp : String) (x : Array Float) : Option String :=
     else
       let o := Search.searchInterp (x.extract 1 x.size) x[0]!
       reply [Float.ofNat o.idx, Float.ofNat o.iters, Float.ofNat o.calls, Float.ofNat o.chk]
+  | "search2_f64" | "search2_int" => some <|
+    if x.size = 0 then "ERR arity"
+    else reply [Float.ofNat (Search.searchInterp (x.extract 1 x.size) x[0]!).idx]
   | "poly_basis" => some <|
     match parseColon grp with
     | some (b, K) =>
@@ -110,7 +113,7 @@ def run (op grp : String) (x : Array Float) : Option String :=
 end PolyOps
 
 def runPoly (op grp prec : String) (args : Array String) : Option String :=
-  if op.startsWith "poly_" || op == "search_f64" || op == "search_int" then
+  if op.startsWith "poly_" || op == "search_f64" || op == "search_int" || op == "search2_f64" || op == "search2_int" then
     if prec == "f64" then PolyOps.run op grp (args.map Bits.ofHex) else some "ERR bad-prec"
   else none
 
